@@ -107,7 +107,7 @@ Trace execute(J const &plan, int mode, RunResult &res) {
     cvm::clear_error();
     if (k == "run") e->run((int)op.at("n").as_int(1), false);
     else if (k == "addbias") { if (e->run_script({"cv", "config", op.at("config").as_str()}) != COLVARS_OK) cvm::clear_error(); }
-    else if (k == "delbias") { if (cvm::bias_by_name(op.at("name").as_str())) e->run_script({"cv", "bias", op.at("name").as_str(), "delete"}); }
+    else if (k == "delbias") { if (cvm::bias_by_name(op.at("name").as_str())) { e->run_script({"cv", "bias", op.at("name").as_str(), "delete"}); if (mode == 0) res.counters["fault.bias_deleted_mid_run"]++; } }
   }
   out.recs = e->rec;
   if (mode == 0) add_steps(res, *e);
